@@ -108,8 +108,8 @@ def _sqrt_generic(x):
         return ENG.sqrt_memo[key][1]
     s = ENG.fresh_real('sqrt')
     a = z3.ToReal(x.z) if x.isint else x.z
-    ENG.axioms.append(z3.And(s >= 0, s * s == a))
-    ENG.assumes.append(s >= 0)
+    # the defining equation of a square root is kept with the input assumptions (never sliced away)
+    ENG.assumes.append(z3.And(s >= 0, s * s == a))
     r = Sym(s)
     ENG.sqrt_memo[key] = (x, r)   # keep x alive so the ast id stays unique
     return r
